@@ -77,6 +77,8 @@ type fnTrans struct {
 	tokLoads []*tokLoad
 	tokByInstr map[*ssa.UnOp]*tokLoad
 	tokMade  []string
+	fnFact   map[string]bool
+	curCallee string // static callee (function key) of the call whose before-clauses are being evaluated
 	loops map[*ssa.BasicBlock]*loopInfo
 	order []*ssa.BasicBlock
 	contract *FuncContract
@@ -201,7 +203,15 @@ func (t *fnTrans) val(v ssa.Value) string {
 		return t.c.declare(n, "Int")
 	case *ssa.Function:
 		n := "fn:" + t.g.fnKey(v)
-		return t.c.declare(n, "Int")
+		d := t.c.declare(n, "Int")
+		if !t.fnFact[n] {
+			if t.fnFact == nil {
+				t.fnFact = map[string]bool{}
+			}
+			t.fnFact[n] = true
+			t.c.axiom("(not (= " + d + " 0))") // a function value is never nil
+		}
+		return d
 	case *ssa.Builtin:
 		return "0"
 	}
